@@ -106,10 +106,29 @@ def needBT (pats : List Pat) (orderingDisabled : Bool) : Bool :=
       c1 && !c2 && !c3)
   !orderingDisabled || lens.any groupNeeds
 
+/-- some node of the type root's trie has the wildcard child together with a literal child: rule `r1` has `*` as its
+    `k`-th field and another rule goes through the same node (`r1.take k`) with a literal `k`-th field -/
+def ambiguousAt (rs : TRules) : Bool :=
+  rs.any fun r1 => (List.range r1.2.length).any fun k =>
+    r1.2[k]? == some starB &&
+      rs.any fun r2 => (r1.2.take k).isPrefixOf r2.2 && k < r2.2.length && r2.2[k]? != some starB
+
+/-- `FSM.HasAmbiguousTransitions` (added by the repair of the unordered-mode defect): some state of the FSM — under
+    any of the type roots — can be left both through `*` and through a literal transition.
+    The loader only produces the types 0, 1, 2 (= the FSM's three roots); the model's rule type is an arbitrary
+    `Nat`, so every type occurring in the rules counts as a root. For loaded configurations it is the same
+    disjunction over the three roots. -/
+def ambiguous (rules : List GRule) : Bool :=
+  ([0, 1, 2] ++ rules.filterMap GRule.ty).any fun ty => ambiguousAt (rulesFor rules ty)
+
+/-- `BacktrackingNeeded` as mapper.go computes it: `TestIfNeedBacktracking(...) || FSM.HasAmbiguousTransitions()` -/
+def backtracking (rules : List GRule) (orderingDisabled : Bool) : Bool :=
+  needBT (rules.map (·.pat)) orderingDisabled || ambiguous rules
+
 /-- `FSM.GetMapping` on the FSM built from `rules` -/
 def globLookup (rules : List GRule) (orderingDisabled : Bool) (name : Pat) (ty : Nat) : Option Found :=
   let rs := rulesFor rules ty
-  let bt := needBT (rules.map (·.pat)) orderingDisabled
+  let bt := backtracking rules orderingDisabled
   pick (!orderingDisabled) (dfs rs bt [] [] name)
 
 end SE
